@@ -11,7 +11,8 @@ fn rac_comment_frontends() {
     use std::sync::{Arc, Mutex, mpsc};
     let langs = ["javascript", "java", "go", "rust", "python", "c"];
     let frags = ["// A naïve approach é😀\n", "/* bl😀ck é */ ", "/** See {@link MyClass for é */\n", "/** @param x the naïve {@link A} */\n", "let s = \"é😀\"; ",
-                 "# naïve comment\n", "fn f() {}\n", "// plain\n", "/* unterminated é", "x = 1\n", "/// doc é\n", "//go:build x\n", "//\n", "//go:generate é\n// words here\n", "/**\n * Returns the name.\n * <p>\n */\n", "/**\n * @param x é\n *\n */ ", "//! \n", "/*!*/ ", "/*! */\n", "//!\n//! doc é\n"];
+                 "# naïve comment\n", "fn f() {}\n", "// plain\n", "/* unterminated é", "x = 1\n", "/// doc é\n", "//go:build x\n", "//\n", "//go:generate é\n// words here\n", "/**\n * Returns the name.\n * <p>\n */\n", "/**\n * @param x é\n *\n */ ", "//! \n", "/*!*/ ", "/*! */\n", "//!\n//! doc é\n",
+                 "/**\n * ```js\n * f();\n * ```\n */\n", "/**\n * [guide]: https://x.y\n */\n", "/// ```\n"];
     let current: Arc<Mutex<String>> = Arc::new(Mutex::new(String::new()));
     let cur2 = current.clone();
     let (tx, rx) = mpsc::channel::<Result<(u64, u64), String>>();
@@ -79,7 +80,7 @@ fn rac_comment_frontends() {
     loop {
         match rx.recv_timeout(std::time::Duration::from_secs(1)) {
             Ok(Ok((cases, nontrivial))) => {
-                println!("RAC-OK comment_frontends cases={} nontrivial={} bound=6-languages,<=3-of-20-fragments", cases, nontrivial);
+                println!("RAC-OK comment_frontends cases={} nontrivial={} bound=6-languages,<=3-of-23-fragments", cases, nontrivial);
                 return;
             }
             Ok(Err(cex)) => {
